@@ -147,16 +147,28 @@ def run_circ(case, ctx):
     terms = gen.terms_of(op)
     H = refsim.qubit_operator_matrix(terms, n)
     exact = float(np.real(np.trace(rho @ H)))
-    var = 0.0
+    # The sampled estimator measures each Pauli word on its own circuit: state preparation followed by the basis-change rotations
+    # (X: RY(-pi/2), Y: RX(pi/2)).  Those rotations are occurrences of RX / RY gates like any other, so a model with noise on RX / RY
+    # applies to them as well (as on hardware): the estimator's target for a word is the expectation of the Z-string in the mixed
+    # state of THAT circuit.  (Found by the thorough tier: comparing with tr(rho H) of the preparation alone was a false alarm.)
+    exact_s, var = 0.0, 0.0
     for t, c in terms.items():
         if t:
-            e = float(np.real(np.trace(rho @ refsim.pauli_word_matrix(t, n))))
+            basis = [("RY", [q], None, -math.pi / 2) for q, pl in t if pl == "X"] + [("RX", [q], None, math.pi / 2) for q, pl in t if pl == "Y"]
+            rho_t = reference_rho(list(gates) + basis, n, spec, init) if basis else rho
+            e = float(np.real(np.trace(rho_t @ refsim.pauli_word_matrix(tuple((q, "Z") for q, _ in t), n))))
+            exact_s += complex(c).real * e
             var += c * c * max(0.0, 1 - e * e)
+        else:
+            exact_s += complex(c).real
+    noisy_basis = any(nm_ in spec for nm_ in ("RX", "RY")) and any(pl in "XY" for t in terms for _, pl in t)
+    ctx.tab("noisy_basis_change_rotations", str(bool(noisy_basis)))
     np.random.seed(s + 1)
     got = be.get_expectation_value(op, circ, initial_statevector=init)
     sig = math.sqrt(var / n_shots)
-    ctx.check("noisy_expectation", abs(got - exact) <= 6 * sig + 1e-9, f"noisy expectation value is {abs(got - exact) / max(sig, 1e-300):.1f} sigma from tr(rho H)",
-              lambda: dict(wit, terms=[[list(map(list, t)), c] for t, c in terms.items()], got=got, expected=exact, sigma=sig))
+    ctx.check("noisy_expectation", abs(got - exact_s) <= 6 * sig + 1e-9,
+              f"noisy sampled expectation value is {abs(got - exact_s) / max(sig, 1e-300):.1f} sigma from the word-by-word expectation in the measured mixed states",
+              lambda: dict(wit, terms=[[list(map(list, t)), c] for t, c in terms.items()], got=got, expected=exact_s, tr_rho_H_of_preparation=exact, sigma=sig))
     # exact noisy expectation through the density matrix
     got2 = be.expectation_value_from_prepared_state(op, n, cur)
     ctx.check("noisy_expectation", abs(got2 - exact) < 1e-7, "expectation_value_from_prepared_state(density matrix) is not tr(rho H)",
